@@ -82,6 +82,11 @@ def slippage_cases(rng, tier):
                 cases.append(slippage_case(t, d1, v, p1, p0, "directed-boundary" if mode == 2 else "random"))
     for _ in range(30 * n):
         cases.append(slippage_case(None, *(loguniform(rng, 0, 127) for _ in range(4)), "random"))
+    # deposits EXACTLY in the pool ratio (as integers), against every kind of tolerance including those above 100%
+    for _ in range(12 * n):
+        a_, b_, k_, j_ = loguniform(rng, 1, 50), loguniform(rng, 1, 50), loguniform(rng, 1, 20), loguniform(rng, 1, 20)
+        for t in (D + 1, 2 * D, 19 * D, D, D - 1, 0, 10 ** 16, None):
+            cases.append(slippage_case(t, a_ * j_, b_ * j_, a_ * k_, b_ * k_, "directed-grid"))
     return cases
 
 
